@@ -16,6 +16,7 @@ pub mod heap {
         Mmapper, VMMap, VERIF_MMAPPER_FACTORY, VERIF_VM_MAP_FACTORY,
     };
     pub use crate::mmtk::{MMAPPER, VM_MAP};
+    pub use crate::util::heap::layout::{Map32, Map64};
     pub use crate::util::heap::gc_trigger::MemBalancerTrigger;
     pub use crate::util::heap::space_descriptor::SpaceDescriptor;
 }
@@ -28,5 +29,6 @@ pub mod rust_util {
 /// Policy internals (`policy` is a private module).
 pub mod policy {
     pub use crate::policy::marksweepspace::native_ms::mi_bin;
+    pub use crate::policy::sft_map::{SFTMap, SFTSpaceMap};
     pub use crate::policy::marksweepspace::native_ms::verif as native_ms;
 }
